@@ -71,8 +71,23 @@ def _track(ctx, v):
     return v
 
 
-def _tie(ctx, d):
-    """d: signed distance to a branch border; count ties within margin."""
+_EXACT_OPS = ('num', 'bool', 'var', 'beta', 'and', 'or', 'belongs') + BIN_CMP
+
+
+def _exact(node, ctx):
+    """operands whose value is exact in every evaluator: literals, data, parameters, 0/1 results"""
+    while node[0] == 'share':
+        node = ctx.shared[node[1]]
+    return node[0] in _EXACT_OPS
+
+
+def _tie(ctx, d, exact=True):
+    """d: signed distance to a branch border; count ties within margin.
+    exact=False: the operands are computed quantities, for which an exact zero distance is a
+    rounding accident another evaluator need not reproduce (e.g. a log-probability of exactly 0)."""
+    if ctx.margin > 0 and not exact:
+        if np.any(_re(d) == 0):
+            ctx.ties += 1
     # an exact zero distance is a legitimate exact tie (integer codes, booleans);
     # rounding-induced exact ties are caught by the float64/longdouble cross-check
     if ctx.margin > 0:
@@ -193,6 +208,7 @@ def _bin(node, ctx):
             raise OutOfDomain('power with non-positive base')
         return a ** b
     ra, rb = _re(a), _re(b)
+    exact = _exact(node[1], ctx) and _exact(node[2], ctx)
     if op in ('min', 'max'):
         _tie(ctx, ra - rb)
         a2, b2 = np.broadcast_arrays(a, b)
@@ -207,7 +223,7 @@ def _bin(node, ctx):
         _tie(ctx, ra)
         _tie(ctx, rb)
         return ctx.arr(((ra != 0) | (rb != 0)).astype(np.float64))
-    _tie(ctx, ra - rb)
+    _tie(ctx, ra - rb, exact)
     res = {
         'eq': ra == rb,
         'ne': ra != rb,
